@@ -226,6 +226,10 @@ pub struct Profile {
     pub big_read_buf: bool,
     pub with_alt: bool,
     pub faults: FaultGen,
+    /// also draw chunk_max_records 40 / 100 (many pinned entries in one chunk)
+    pub big_chunks: bool,
+    /// now and then an append of 30-70 entries
+    pub big_batches: bool,
 }
 
 #[derive(Debug, Clone, Copy, PartialEq, Eq)]
@@ -235,6 +239,8 @@ pub enum FaultGen {
     Io,
     /// sync failures only (plus benign short writes)
     SyncOnly,
+    /// sync failures, benign short writes, and failing unlinks
+    SyncAndUnlink,
 }
 
 impl Profile {
@@ -262,6 +268,8 @@ impl Profile {
             big_read_buf: false,
             with_alt: false,
             faults: FaultGen::None,
+            big_chunks: false,
+            big_batches: false,
         }
     }
 }
@@ -278,10 +286,12 @@ pub fn cfg_strategy(p: &Profile) -> BoxedStrategy<CfgSpec> {
     static ITEMS_SMALL: [Option<usize>; 7] = [Some(0), Some(1), Some(2), Some(3), Some(10), None, Some(0)];
     static CAP_SMALL: [Option<usize>; 6] = [Some(0), Some(1), Some(8), Some(64), None, None];
     static UNLIM: [Option<usize>; 1] = [None];
+    static RECS_BIG: [Option<usize>; 8] = [Some(1), Some(3), Some(5), Some(20), Some(40), Some(40), Some(100), None];
     let rbuf = if p.big_read_buf { opt_of(&RBUF_BIG).boxed() } else { opt_of(&RBUF).boxed() };
     let (items, cap) = if p.small_cache { (opt_of(&ITEMS_SMALL).boxed(), opt_of(&CAP_SMALL).boxed()) } else { (opt_of(&UNLIM).boxed(), opt_of(&UNLIM).boxed()) };
     let trunc = if p.trunc_opt { prop_oneof![Just(None), Just(Some(true)), Just(Some(false))].boxed() } else { Just(None).boxed() };
-    (opt_of(&RECS), opt_of(&SIZES), rbuf, items, cap, trunc)
+    let recs = if p.big_chunks { opt_of(&RECS_BIG).boxed() } else { opt_of(&RECS).boxed() };
+    (recs, opt_of(&SIZES), rbuf, items, cap, trunc)
         .prop_map(|(max_records, max_size, read_buf, cache_items, cache_cap, trunc)| CfgSpec { max_records, max_size, read_buf, cache_items, cache_cap, trunc })
         .boxed()
 }
@@ -360,7 +370,8 @@ pub fn op_strategy(p: &Profile) -> BoxedStrategy<OpSpec> {
     add(
         p.w_append,
         (
-            1u8..=6,
+            // mostly small batches; now and then one that spans several chunks / owes many evictions
+            if p.big_batches { prop_oneof![24 => 1u8..=6, 1 => 30u8..=70].boxed() } else { (1u8..=6).boxed() },
             prop_oneof![6 => Just(TermSel::Same), 3 => (1u8..=3).prop_map(TermSel::Bump)],
             prop_oneof![3 => Just(FirstSel::Zero), 3 => (1u8..=5).prop_map(FirstSel::Small), 1 => Just(FirstSel::Large)],
             pay_strategy(p.huge_payload),
@@ -388,14 +399,17 @@ pub fn op_strategy(p: &Profile) -> BoxedStrategy<OpSpec> {
 pub fn fault_strategy(g: FaultGen) -> BoxedStrategy<Vec<FaultRule>> {
     match g {
         FaultGen::None => Just(vec![]).boxed(),
-        FaultGen::Io | FaultGen::SyncOnly => {
+        FaultGen::Io | FaultGen::SyncOnly | FaultGen::SyncAndUnlink => {
             let sync_rule = (0u32..12, prop_oneof![4 => Just(1u32), 3 => Just(2u32), 1 => Just(3u32), 1 => Just(u32::MAX / 2)], prop_oneof![Just(FaultKind::Eio), Just(FaultKind::Enospc)])
                 .prop_map(|(nth, count, kind)| FaultRule { target: FaultTarget::WorkerSync, nth, count, kind });
             let short_rule = (0u32..12, 1u32..3, any::<u8>()).prop_map(|(nth, count, k)| FaultRule { target: FaultTarget::WorkerWrite, nth, count, kind: FaultKind::Short(k) });
             let eintr_rule = (0u32..12, 1u32..3).prop_map(|(nth, count)| FaultRule { target: FaultTarget::WorkerWrite, nth, count, kind: FaultKind::Eintr });
             let write_rule = (0u32..12, prop_oneof![3 => Just(1u32), 1 => Just(u32::MAX / 2)], prop_oneof![Just(FaultKind::Eio), Just(FaultKind::Enospc)])
                 .prop_map(|(nth, count, kind)| FaultRule { target: FaultTarget::WorkerWrite, nth, count, kind });
-            let one: BoxedStrategy<FaultRule> = if g == FaultGen::Io {
+            let unlink_rule = (0u32..4, prop_oneof![3 => Just(1u32), 1 => Just(u32::MAX / 2)]).prop_map(|(nth, count)| FaultRule { target: FaultTarget::WorkerUnlink, nth, count, kind: FaultKind::Eio });
+            let one: BoxedStrategy<FaultRule> = if g == FaultGen::SyncAndUnlink {
+                prop_oneof![5 => sync_rule, 2 => short_rule, 1 => eintr_rule, 3 => unlink_rule].boxed()
+            } else if g == FaultGen::Io {
                 prop_oneof![5 => sync_rule, 2 => short_rule, 1 => eintr_rule, 2 => write_rule].boxed()
             } else {
                 prop_oneof![6 => sync_rule, 2 => short_rule, 1 => eintr_rule].boxed()
